@@ -156,6 +156,9 @@ def _nonstandard_ops(ctx, c):
 
 
 def evaluate(ctx, cases):
+    if not getattr(ctx, "_opt_hist_done", False):
+        ctx._opt_hist_done = True
+        _option_histories(ctx)
     from jsonpath import JSONPatch
 
     for c in cases:
@@ -260,6 +263,36 @@ def evaluate(ctx, cases):
             ctx.count("json-text-document")
             if not (tr[0] == tr[1] == tr[2] == results[0]):
                 ctx.violation("applying a patch repeatedly to the same JSON text must give the result of applying it to the parsed value, every time", {**inp, "document_text": txt}, tr, results[0])
+
+
+def _option_histories(ctx):
+    """Patches built one after another in one process with different pointer options from the same raw path text: each means
+    what its own options say (builder form under the same options as the reference), whatever was built before."""
+    from jsonpath import JSONPatch
+    doc = {"a%20b": 0, "a b": 1, "x%2Fy": 2, "x/y": 3, "\\u0061": 4, "a": 5}
+    paths = ["/a%20b", "/x%2Fy", "/\\u0061", "/a"]
+    optss = [{"uri_decode": True}, {}, {"unicode_escape": False}, {"uri_decode": True, "unicode_escape": False}, {}]
+    for order in (optss, list(reversed(optss))):
+        for path in paths:
+            for opts in order:
+                for opname, mk in (("add", lambda P: P.add(path, 9)), ("addne", lambda P: P.addne(path, [1])), ("replace", lambda P: P.replace(path, 9)), ("test", lambda P: P.test(path, doc.get(path[1:], None)))):
+                    ref = core.outcome(lambda: mk(JSONPatch(**opts)))
+                    od = {"op": opname, "path": path, "value": (9 if opname in ("add", "replace") else [1] if opname == "addne" else doc.get(path[1:], None))}
+                    got = core.outcome(lambda: JSONPatch([dict(od)], **opts))
+                    ctx.count("option-histories")
+                    if ("ok" in ref) != ("ok" in got):
+                        ctx.violation("a patch built from dicts must be accepted exactly when the builder accepts it, under the same options", {"op": od, "options": opts}, got.get("err", "built"), ref.get("err", "built"))
+                        continue
+                    if "ok" not in ref:
+                        continue
+                    a, b = core.canon(got["ok"].asdicts()), core.canon(ref["ok"].asdicts())
+                    ra = core.outcome(lambda: got["ok"].apply(copy.deepcopy(doc)))
+                    rb = core.outcome(lambda: ref["ok"].apply(copy.deepcopy(doc)))
+                    na = {"ok": core.canon(ra["ok"])} if "ok" in ra else {"err": ra["err"]}
+                    nb = {"ok": core.canon(rb["ok"])} if "ok" in rb else {"err": rb["err"]}
+                    if a != b or na != nb:
+                        ctx.violation("document and builder forms under the same options must print the same dicts and have the same effect, whatever patches were built before",
+                                      {"op": od, "options": opts, "doc": doc}, [a, na], [b, nb])
 
 
 def search(ctx):
